@@ -148,6 +148,17 @@ def trips(td, scratch, rng):
     out = {}
     out["pickle"] = (lambda: pickle.loads(pickle.dumps(td)), full)
     out["deepcopy"] = (lambda: copy.deepcopy(td), full)
+
+    def torch_save(x):
+        # torch.save / torch.load through a buffer: pickle with torch's own storage records (`weights_only=False`: a tensordict is not on
+        # torch's allow-list, `weights_only=True` refuses it by design)
+        import io
+        buf = io.BytesIO()
+        torch.save(x, buf)
+        buf.seek(0)
+        return torch.load(buf, weights_only=False)
+    out["torch.save+torch.load"] = (lambda: torch_save(td), full)
+    out["torch.save+torch.load(consolidated)"] = (lambda: torch_save(td.consolidate()), full)
     for nt in (0, 1, 4):
         out[f"consolidate(num_threads={nt})"] = (lambda nt=nt: td.consolidate(num_threads=nt, metadata=bool(nt % 2)), full)
     out["consolidate(share_memory)"] = (lambda: td.consolidate(share_memory=True), full)
@@ -235,6 +246,17 @@ def snapshot_trips(td):
     flattened or not). name -> (serialise, deserialise)"""
     from tensordict import TensorDict
     out = {"pickle-bytes": (lambda: pickle.dumps(td), lambda b_: pickle.loads(b_))}
+
+    def ts_ser():
+        import io
+        buf = io.BytesIO()
+        torch.save(td, buf)
+        return buf.getvalue()
+
+    def ts_de(b_):
+        import io
+        return torch.load(io.BytesIO(b_), weights_only=False)
+    out["torch.save-bytes"] = (ts_ser, ts_de)
     for flatten in (False, True):
         def ser(flatten=flatten):
             return td.state_dict(flatten=flatten)
@@ -288,7 +310,7 @@ def applicable(name, kind, td):
         return False
     if name.startswith(("consolidate(file over", "consolidate(file, use_buffer")) and kind in ("tensorclass", "njt"):
         return False
-    if kind == "njt" and name not in ("pickle", "deepcopy", "consolidate(num_threads=0)", "consolidate(num_threads=1)", "consolidate(num_threads=4)",
+    if kind == "njt" and name not in ("pickle", "deepcopy", "torch.save+torch.load", "torch.save+torch.load(consolidated)", "consolidate(num_threads=0)", "consolidate(num_threads=1)", "consolidate(num_threads=4)",
                                       "pickle(consolidated)", "consolidate(file)+from_consolidated", "consolidate(inplace)", "pickle(consolidated inplace)"):
         return False
     if kind == "lazy" and (name in ("struct_array",) or name.startswith(("state_dict", "to_dict+from_dict"))):
@@ -299,6 +321,7 @@ def applicable(name, kind, td):
 
 
 def run_trips(run):
+    from tensordict import TensorDictBase
     rng = run.rng
     quick = run.tier == "quick"
     pools = {}
@@ -313,6 +336,7 @@ def run_trips(run):
     try:
         with warnings.catch_warnings():
             warnings.simplefilter("ignore")
+            unlock_probed = set()
             for it in range(140 if quick else 840):
                 kind = KINDS[it % len(KINDS)]
                 td = gen_td(rng, kind)
@@ -378,15 +402,25 @@ def run_trips(run):
                             acc = [f"probe raised {type(e).__name__}: {str(e)[:80]}"]
                         if acc:
                             diff = "reports is_locked but accepts: " + ", ".join(acc)
+                    if diff is None and lock and name.startswith("consolidate(num_threads") and isinstance(res, TensorDictBase) and (kind, name) not in unlock_probed:
+                        unlock_probed.add((kind, name))      # once per kind and form: a refused unlock_ costs a garbage collection inside the library
+                        # the consolidated copy of a locked tensordict is a tensordict of its own: it can be unlocked while the source lives on
+                        try:
+                            res.unlock_()
+                            res.lock_()
+                        except RuntimeError as e:
+                            diff = f"the consolidated copy cannot be unlocked while its locked source is alive: {str(e)[:80]}"
                     if diff is None:
                         run.oracle_ok("roundtrip:" + name.split("(")[0])
                     else:
                         what = "other"
                         if diff.startswith("reports is_locked but accepts"):
                             what = "lock-behaviour"
+                        if diff.startswith("the consolidated copy cannot be unlocked"):
+                            what = "unlock-refused"
                         if diff.startswith("raised"):
                             what = "raise-" + "".join(ch if ch.isalnum() else "-" for ch in diff[7:60])
-                        if opts.get("lock") and not diff.startswith("raised") and what != "lock-behaviour":
+                        if opts.get("lock") and not diff.startswith("raised") and what not in ("lock-behaviour", "unlock-refused"):
                             try:
                                 nolock = dict(opts, lock=False)
                                 res2 = fn()
@@ -397,6 +431,33 @@ def run_trips(run):
                                 pass
                         run.oracle_fail("roundtrip:" + name.split("(")[0], {"kind": kind, "format": name, "locked": lock, "td": str(canon(td))[:400]},
                                         f"{name} on a {kind} tensordict (locked={lock}): {diff}", f"{name}:{kind}:{what}:locked={lock}")
+            # torch.save / torch.load of a tensordict consolidated IN A FILE, fresh and stale (a key added since): the stale one is pickled entry
+            # by entry, its entries are views of the storage that maps the whole file (data + metadata + length suffix)
+            import io
+            from tensordict import TensorDict
+            for n_, dt_ in ((3, torch.float64), (4, torch.float32), (rng.choice([2, 5]), torch.int64)):
+                for stale in (False, True):
+                    src = TensorDict({"a": torch.arange(n_ * 4).to(dt_).reshape(n_, 2, 2)}, [n_])
+                    c_ = src.consolidate(filename=scratch / f"ts{n_}_{int(stale)}.mmap")
+                    if stale:
+                        if c_.is_locked:
+                            c_.unlock_()
+                        c_["k"] = torch.zeros(n_)
+                    case_ = {"rows": n_, "dtype": str(dt_), "stale": stale}
+                    run.case(("torch.save(file-consolidated)", n_, stale))
+                    try:
+                        buf = io.BytesIO()
+                        torch.save(c_, buf)
+                        buf.seek(0)
+                        back = torch.load(buf, weights_only=False)
+                        diff_ = first_diff(canon(c_, lock=False, names=True, device=False), canon(back, lock=False, names=True, device=False))
+                    except Exception as e:  # noqa: BLE001
+                        diff_ = f"raised {type(e).__name__}: {str(e)[:120]}"
+                    if diff_ is None:
+                        run.oracle_ok("roundtrip:torch.save+torch.load")
+                    else:
+                        run.oracle_fail("roundtrip:torch.save+torch.load", case_, f"torch.save + torch.load of a tensordict consolidated in a file ({'stale: a key was added' if stale else 'fresh'}): {diff_}",
+                                        f"torch.save:{'stale-' if stale else ''}file-consolidated:{'raise-' + diff_.split(':')[0][7:] if diff_.startswith('raised') else 'differs'}")
     finally:
         for pool in pools.values():
             pool.terminate()
@@ -443,7 +504,7 @@ def run_pytree(run, drv):
             return "*"
         c = spec.context
         return [list(c["keys"]), list(c["batch_size"]), list(c["names"]) if c["names"] is not None else "none",
-                "none" if c["device"] is None else str(c["device"]), [spec_of(s) for s in spec.children_specs]]
+                "none" if c["device"] is None else str(c["device"]), [spec_of(s) for s in (spec.children() if callable(getattr(spec, "children", None)) else spec.children_specs)]]
 
     from common import Raw, sx
 
